@@ -265,6 +265,17 @@ def case_misid(col, p):
     _cmp(col, 'C09:misid_func', p, out, ex, np.zeros(shape, bool), False)
     if seen != {'params': [2.0, 3.0], 'ns': ns, 'pts': 17, 'extra': 'e'}:
         col.violation('C09:misid_func:plumbing', p, seen)
+    # the wrapper over the whole range of the misidentification probability (above 1/2 the mirror image dominates - no reflection)
+    for pmq in (Fraction(0), Fraction(1, 2), Fraction(5, 8), Fraction(7, 8), Fraction(1)):
+        outq = mf([2.0, 3.0, float(pmq)], ns, 17, extra='e')
+        col.tick(transitions=1)
+        _cmp(col, 'C09:misid_func', dict(p, p_misid=float(pmq)), outq, (1 - pmq) * d + pmq * RS.mirror(d), np.zeros(shape, bool), False)
+    # a folded spectrum cannot be declared unfolded by re-wrapping it (that would silently treat minor-allele counts as derived-allele counts)
+    try:
+        bad = dadi.Spectrum(dadi.Spectrum(np.arange(1.0, np.prod(shape) + 1).reshape(shape)).fold(), data_folded=False)
+        col.violation('C09:constructor:folded_declared_unfolded_accepted', p, {'folded_flag_of_result': bool(bad.folded)})
+    except ValueError:
+        pass
     # the older wrapper Inference.add_misid_param (deprecated, still public) is the same convex mix
     import warnings as _w
     from dadi import Inference
@@ -440,6 +451,17 @@ def case_slice_ll(col, p):
     model = dadi.Spectrum(base.copy() / 3.0, pop_ids=ids)
     data = dadi.Spectrum((base[tuple(slice(None, None, -1) for _ in shape)] * 2 % 5).copy(), pop_ids=ids).fold()
     snap = (np.asarray(model.data).copy(), np.ma.getmaskarray(model).copy(), np.asarray(data.data).copy(), np.ma.getmaskarray(data).copy())
+    # the residual functions fold the model the same way, for every cutoff below which model and data are both ignored
+    for fname in ('Anscombe_Poisson_residual', 'linear_Poisson_residual'):
+        fn = getattr(dadi.Inference, fname)
+        for cutoff in (None, 0.4, 1.0, 2.5):
+            r1 = fn(model, data, mask=cutoff)
+            r2 = fn(model.fold(), data, mask=cutoff)
+            col.tick(transitions=2)
+            if not (np.array_equal(np.ma.getmaskarray(r1), np.ma.getmaskarray(r2)) and
+                    np.allclose(np.ma.filled(r1, 0.0), np.ma.filled(r2, 0.0), rtol=1e-12, atol=0, equal_nan=True)):
+                col.violation('C09:%s:autofold' % fname, dict(p, cutoff=cutoff),
+                              {'masked_auto': int(np.ma.getmaskarray(r1).sum()), 'masked_explicit': int(np.ma.getmaskarray(r2).sum())})
     for fname in ('ll', 'll_multinom'):
         fn = getattr(dadi.Inference, fname)
         v1 = fn(model, data)
